@@ -54,6 +54,15 @@ class SaveCrashScenario(PersistScenario):
         h["max_ops"] = stream(seed, "c19").randint(4, self.max_ops)
         return h
 
+    def gen_set(self, st, rng, cfg, tgts, cfgpaths, owners):
+        if rng.random() < 0.12:
+            # a value that is not JSON-like but that YAML and pickle write and read back (a tuple) in an untyped field
+            anys = [t for t in tgts if t.node["kind"] == "any" and not t.node.get("validator") and not t.node.get("dynamic") and "[" not in t.path]
+            if anys:
+                from ..codec import enc
+                return {"op": "set", "via": "attr", "path": rng.choice(anys).path, "v": enc(rng.choice([("t", 1), (1, (2, 3)), ()]))}
+        return super().gen_set(st, rng, cfg, tgts, cfgpaths, owners)
+
     def gen_crash_save(self, st, rng, cfg, tgts, cfgpaths, owners):
         if st.docs and rng.random() < 0.85:
             d = rng.choice(st.docs)
